@@ -397,22 +397,25 @@ Definition dict_set (h : heap) (l : loc) (k : pystr) (v : sval) : res heap :=
 
 Inductive outcome := Returned | Raised (at_step : nat) | Failed (e : err).
 
+Inductive pres := POk (cj : sval) | PFault | PErr (e : err).
+
 Definition pop_copy_restore (restore_in_finally : bool) (fault : bool) (n : nat) (h : heap) (l : loc)
-  : heap * option sval * option err :=
+  : heap * pres :=
   match dict_pop h l k_data with
-  | Err e => (h, None, Some e)
+  | Err e => (h, PErr e)
   | Ok (h1, tmp) =>
-      match (if fault then Err RuntimeError else deepcopy n h1 (VRef l)) with
-      | Ok (h2, cj) =>
+      match (if fault then None else Some (deepcopy n h1 (VRef l))) with
+      | Some (Ok (h2, cj)) =>
           match dict_set h2 l k_data tmp with
-          | Ok h3 => (h3, Some cj, None)
-          | Err e => (h2, None, Some e)
+          | Ok h3 => (h3, POk cj)
+          | Err e => (h2, PErr e)
           end
-      | Err e =>
+      | other =>
           (* deepcopy raised: the restore statement is skipped unless the source puts it in a finally clause *)
+          let out := match other with Some (Err e) => PErr e | _ => PFault end in
           if restore_in_finally
-          then match dict_set h1 l k_data tmp with Ok h2 => (h2, None, Some e) | Err _ => (h1, None, Some e) end
-          else (h1, None, Some e)
+          then match dict_set h1 l k_data tmp with Ok h2 => (h2, out) | Err _ => (h1, out) end
+          else (h1, out)
       end
   end.
 
@@ -421,11 +424,13 @@ Definition dso (restore_in_finally : bool) (fault : option nat) (n : nat) (h : h
   let fa := match fault with Some 0 => true | _ => false end in
   let fb := match fault with Some 1 => true | _ => false end in
   match pop_copy_restore restore_in_finally fa n h a with
-  | (h1, _, Some e) => (h1, if fa then Raised 0 else Failed e)
-  | (h1, _, None) =>
+  | (h1, PErr e) => (h1, Failed e)
+  | (h1, PFault) => (h1, Raised 0)
+  | (h1, POk _) =>
       match pop_copy_restore restore_in_finally fb n h1 b with
-      | (h2, _, Some e) => (h2, if fb then Raised 1 else Failed e)
-      | (h2, _, None) =>
+      | (h2, PErr e) => (h2, Failed e)
+      | (h2, PFault) => (h2, Raised 1)
+      | (h2, POk _) =>
           match fault with
           | Some 2 => (h2, Raised 2)
           | _ => (h2, Returned)
